@@ -609,6 +609,9 @@ func checkDecoderPanicsAndLoops(p *core.Program, r *core.Report) {
 	}
 	r.Analysed["decoder_single_value_assertions"] = nAssert
 
+	// the broadcast connector's reader must not be stoppable by what it receives
+	checkServiceSends(p, r, bbcPkg, "Connector")
+
 	// encoding/binary.Write(w, order, data) panics (reflection on a nil interface) when data is nil. Where data is an
 	// `interface{}` that comes from the caller (JSON `null` in a REST build request ends up here), it must be
 	// tested against nil first.
